@@ -61,6 +61,16 @@ Theorem C15_json_wellformed : forall (s : state V) (r : request V) resp s',
   end.
 Proof. exact json_bodies_are_marshalled. Qed.
 
+(* Semantically wrong input is a client error, not silent acceptance: a POST /solutions whose table has an Actions cell
+   that does not decode into the management actions of the loaded scenario (wrong word count, a word beyond 64 bits,
+   an empty word -- all of which pass the hexadecimal pattern) is never answered 200 -- in ANY state; so by
+   C15_error_is_json it gets the JSON error document, and by C14_error_leaves_state nothing is stored. *)
+Theorem C15_undecodable_encoding_is_client_error : forall (s : state V) (r : request V) t resp s',
+  rq_route r = RSolutions -> rq_meth r = MPost -> rq_csv r = CsvOk t ->
+  (forall m, st_model s = Some m -> has_undecodable (List.length (d_actions (m_desc m))) t = true) ->
+  handle s r = Ok (resp, s') -> rs_status resp <> 200%nat.
+Proof. exact undecodable_encoding_refused. Qed.
+
 End C15.
 
 (* Non-vacuity: a concrete well-formed sequence that loads a scenario, writes, reads, and sends malformed input. *)
@@ -85,6 +95,14 @@ Example C15_example_statuses :
   = [404; 200; 200; 200; 404; 400; 400; 404; 404]%nat.
 Proof. vm_compute. reflexivity. Qed.
 
+Example C15_example_undecodable :
+  decodes 13 "40" = true /\ decodes 13 "1:2" = false /\ decodes 13 "10000000000000000" = false
+  /\ decodes 13 ":" = false /\ decodes 13 "" = false /\ decodes 65 "1:2" = true
+  /\ has_undecodable 13 {| t_header := ["Solution"; "SedimentProduction"; "Actions"; "Summary"]%string;
+                           t_rows := [[CS "As-Is"; CF (Fin (1059911 # 1000)) "1059.911"; CF (Fin 0) "0"; CS "as is"];
+                                      [CS "1-of-8"; CF (Fin 1) "1"; CS "1:2"; CS "x"]]%string |} = true.
+Proof. vm_compute. repeat split; reflexivity. Qed.
+
 Print Assumptions C15_no_panic_full_refuted.
 Print Assumptions C15_no_panic_partial.
 Print Assumptions C15_every_request_answered_partial.
@@ -92,3 +110,4 @@ Print Assumptions C15_status_documented.
 Print Assumptions C15_error_is_json.
 Print Assumptions C15_success_is_not_an_error_document.
 Print Assumptions C15_json_wellformed.
+Print Assumptions C15_undecodable_encoding_is_client_error.
